@@ -248,11 +248,16 @@ static void fill_operands(const Op &op, Case &c, Rng &r) {     // fill v[] of ev
     fill_style(c.v[k], o[k].size, st, r);
   }
 }
+// ABI pass (--abi-garbage 1): the int-typed scalar of the shift-type entry points (unsigned cnt / int s) is passed with non-zero bits 32..63 in its
+// register, which the SysV x86-64 ABI leaves undefined for a 32-bit argument; the C references read the low half only.
+static bool g_abi_garbage = false;
+static bool abi_int_scalar_op(const std::string &n) { return n == "lshift" || n == "rshift" || n == "lshiftc" || n == "rsh_divrem_hensel_qr_1_1" || n == "rsh_divrem_hensel_qr_1_2"; }
 static Case make_case(const Op &op, U seed, U key, U idx, long n) {
   Rng r(seed, key, idx); Case c; c.n = n;
   for (int k = 0; k < NOPD; k++) c.al[k] = r.coin();
   // gen may pre-fill some operands / scalars and choose overlap; it may call fill for operands needing structure
   op.gen(c, r, n);
+  if (g_abi_garbage && abi_int_scalar_op(op.name)) c.sc[0] |= 0xDEADBEEF00000000ull;
   fill_operands(op, c, r);
   return c;
 }
@@ -278,11 +283,12 @@ int main(int argc, char **argv) {
   std::map<std::string, std::unordered_set<std::string>> known;
   { std::string k = a["--known"]; size_t i = 0; while (i < k.size()) { size_t j = k.find(',', i); if (j == std::string::npos) j = k.size(); std::string t = k.substr(i, j - i); size_t e = t.find(':'); if (e != std::string::npos) known[t.substr(0, e)].insert(t.substr(e + 1)); i = j + 1; } }
   std::string only = a["--entry"];
-  bool replay = a.count("--replay-case");
+  bool replay = a.count("--replay-case"); g_abi_garbage = a.count("--abi-garbage") != 0;
   std::string out = "{\"label\":\"" + jesc(g_label) + "\",\"entries\":[";
   bool first = true, any_fail = false;
   for (auto &op : ops) {
     if (!only.empty() && op.name != only) continue;
+    if (g_abi_garbage && !abi_int_scalar_op(op.name)) continue;
     void *kfn = dlsym(hk, op.sym.c_str()); if (!kfn) continue;
     g_cur_entry = op.name;
     std::vector<RefFn> refs; std::vector<std::string> missing;
